@@ -102,6 +102,7 @@ theorem todoOK_append_right (a b : List Item) (h : TodoOK (a ++ b)) : TodoOK b :
     cases x with
     | endRetx => exact ih h
     | write c r => exact ih h.2.2.2
+    | feed rem offs => exact absurd h (by simp [TodoOK])
 
 theorem fresh_data_ne (F : List Bytes) (hF : F ≠ []) (h : TodoOK (fresh F)) : itemsData (fresh F) ≠ [] := by
   cases F with
